@@ -220,6 +220,9 @@ type Cluster struct {
 	ExpectClientID string
 	// Mutate post-processes a response body before it is encoded (error injection)
 	Mutate func(r *Req, body rc.Msg) rc.Msg
+	// CutExact: for r.Fault == "cut-exact", the number of response bytes to
+	// deliver before the connection ends, and whether it ends with RST (else EOF)
+	CutExact func(r *Req) (int, bool)
 	// MutateFrame post-processes the encoded response frame (framing faults)
 	MutateFrame func(r *Req, frame []byte) []byte
 	// TruncateAtMaxBytes: a partition's record set is cut at partition_max_bytes
@@ -449,8 +452,12 @@ func (b *Broker) respond(c *Conn, st *connState, r *Req, body rc.Msg) {
 		return
 	}
 	cut := -1
+	rst := false
 	if r.Fault == "cut-in-response" {
 		cut = cl.S.T.Intn("fault", len(frame))
+	}
+	if r.Fault == "cut-exact" && cl.CutExact != nil {
+		cut, rst = cl.CutExact(r)
 	}
 	r.RespAt = cl.S.Now()
 	cl.S.After(delay, fmt.Sprintf("c%d:resp#%d", c.ID, r.Hdr.CorrelationID), func() {
@@ -459,10 +466,9 @@ func (b *Broker) respond(c *Conn, st *connState, r *Req, body rc.Msg) {
 		}
 		if cut >= 0 {
 			c.Deliver(frame[:cut])
-			if cl.S.T.Intn("fault", 2) == 0 {
-				c.ServerClose()
+			if rst {
+				c.ServerResetAfterData()
 			} else {
-				// let the client read what was delivered before the reset
 				c.ServerClose()
 			}
 			st.busy = false
